@@ -20,7 +20,16 @@ Definition f_locate (kind : nat) (span : list Z) (tbl : list (Z * locres)) (x : 
   | S O => locate_span SpArray span x
   | S (S O) => match zlookup x tbl with Some r => r | None => LFail end
   | S (S (S O)) => locate_span SpIndex span x
-  | _ => locate_qindex span x
+  | S (S (S (S O))) => locate_qindex span x
+  | _ => locate_interval span x                 (* 5 = pandas IntervalIndex *)
+  end.
+
+(* iter_periods() itself has no isinstance test: range() accepts the numpy.int64 an IntervalIndex lookup answers with, so for
+   kind 5 the positions are usable there (only solve() / solve_period() reject them) *)
+Definition f_locate_iter (kind : nat) (span : list Z) (tbl : list (Z * locres)) (x : Z) : locres :=
+  match kind with
+  | S (S (S (S (S _)))) => locate_span SpIndex span x
+  | _ => f_locate kind span tbl x
   end.
 
 Definition f_solve (sc : scripts) (d : mdesc) (o : fopts) (kind : nat) (span : list Z) (tbl : list (Z * locres))
@@ -66,20 +75,20 @@ Definition run_scase (c : scase) : fstate * sout :=
          end
   | S (S (S (S _))) =>
       (* a = next(pi); b = next(pi); list(pi); list(pi); len(pi) on pi = iter_periods(start=, end=) *)
-      match period_iter_protocol_M (iter_periods_M Z (f_locate (sc_kind c) (sc_span c) (sc_tbl c)) (sc_desc c) (sc_span c) (sc_start c) (sc_end c)) with
+      match period_iter_protocol_M (iter_periods_M Z (f_locate_iter (sc_kind c) (sc_span c) (sc_tbl c)) (sc_desc c) (sc_span c) (sc_start c) (sc_end c)) with
       | Ret (len, ps) => (sc_state c, Ret (len, map (fun tl : Z * Z => (snd tl, fst tl, false)) ps))
       | Raise e => (sc_state c, Raise e)
       end
   | S (S (S O)) =>
       (* next(iter_periods(start=, end=)): the first pair, reported as one visit with flag false *)
-      match period_iter_next_M (iter_periods_M Z (f_locate (sc_kind c) (sc_span c) (sc_tbl c)) (sc_desc c) (sc_span c) (sc_start c) (sc_end c)) with
+      match period_iter_next_M (iter_periods_M Z (f_locate_iter (sc_kind c) (sc_span c) (sc_tbl c)) (sc_desc c) (sc_span c) (sc_start c) (sc_end c)) with
       | Ret (t, lab) => (sc_state c, Ret (1%nat, [(lab, t, false)]))
       | Raise e => (sc_state c, Raise e)
       end
   | S (S O) =>
       (* iter_periods(start=, end=): (len(period_iter), list(period_iter)) — the pairs are reported as visits with flag false;
          nothing is solved, the state is untouched *)
-      match iter_periods_M Z (f_locate (sc_kind c) (sc_span c) (sc_tbl c)) (sc_desc c) (sc_span c) (sc_start c) (sc_end c) with
+      match iter_periods_M Z (f_locate_iter (sc_kind c) (sc_span c) (sc_tbl c)) (sc_desc c) (sc_span c) (sc_start c) (sc_end c) with
       | Ret (len, ps) => (sc_state c, Ret (len, map (fun tl : Z * Z => (snd tl, fst tl, false)) ps))
       | Raise e => (sc_state c, Raise e)
       end
